@@ -200,10 +200,16 @@ Proof.
     + destruct (cid c <? s0)%N; [destruct (goaway_inv _ _ _ _ H Hw) as (? & ? & _); auto|]. inversion H; subst. auto.
 Qed.
 
+Lemma Forall_remove_stream (P : stream -> Prop) s0 : forall ss, Forall P ss -> Forall P (remove_stream s0 ss).
+Proof.
+  induction ss as [|x ss IH]; intros H; [constructor|]. cbn [remove_stream]. apply Forall_cons_iff in H as [H1 H2].
+  destruct (sid x =? s0)%N; [exact H2|constructor; [exact H1|apply IH; exact H2]].
+Qed.
+
 Theorem step_inv c e c' o : step c e = Ok c' o -> Wf c -> Clean c -> Wf c' /\ Clean c'.
 Proof.
   unfold step. destruct (alive c); cbn [negb]; [|intros H; inversion H; subst; auto].
-  destruct e as [ps| |s n|s v|].
+  destruct e as [ps| |s n|s v| |s].
   - destruct (settings_loop c ps []) as [c1 o1] eqn:Es. intros H Hw Hcl.
     pose proof (settings_loop_inv _ _ _ _ _ Es Hw) as Hw1. pose proof (settings_loop_clean _ _ _ _ _ Es Hw Hcl) as Hc1.
     destruct (alive c1).
@@ -223,6 +229,11 @@ Proof.
     + destruct (pump 64 c1) as [c2 o2] eqn:Ep. inversion H; subst. destruct (pump_inv _ _ _ _ Ep Hw1) as (? & ? & _). auto.
     + inversion H; subst. auto.
   - destruct (pump 64 c) as [c2 o2] eqn:Ep. intros H Hw Hcl. inversion H; subst. destruct (pump_inv _ _ _ _ Ep Hw) as (? & ? & _). auto.
+  - destruct ((s =? 0)%N || (cid c <? s)%N).
+    + destruct (goaway c H2_E_PROTOCOL_ERROR) as [c1 o1] eqn:Eg. intros H Hw Hcl. inversion H; subst. destruct (goaway_inv _ _ _ _ Eg Hw) as (? & ? & _). auto.
+    + destruct (pump 64 _) as [c2 o2] eqn:Ep. intros H Hw Hcl. inversion H; subst. destruct (pump_inv _ _ _ _ Ep) as (? & Hc & _).
+      * destruct Hw as [Hcw Hs]. split; cbn; [exact Hcw|]. apply Forall_remove_stream. exact Hs.
+      * split; [assumption|]. apply Hc. destruct Hcl as [Hcov Hscl]. split; cbn; [exact Hcov|]. apply Forall_remove_stream. exact Hscl.
 Qed.
 
 (* a whole connection history *)
